@@ -428,7 +428,7 @@ class IH5Dataset(IH5Node):
         # copy value from older container to current patch
         # (a real node in the patch hides everything older at that path, and there
         # could be a virtual node with attribute changes already -> keep attributes)
-        attrs = {k: attr_value_for_copy(v) for k, v in self.attrs.items()}
+        attrs = {k: typed_attr_value(self.attrs, k) for k in self.attrs.keys()}
         raw_old = self._files[self._cidx][self._gpath]
         if self._gpath in self._files[-1]:
             del self._files[-1][self._gpath]  # virtual node (just attribute changes)
@@ -778,8 +778,8 @@ def attr_value_for_copy(val):
     return val
 
 
-def copy_attr(src_attrs, trg_attrs, key: str):
-    """Copy an attribute value, keeping opaque and enumerated scalar types."""
+def typed_attr_value(src_attrs, key: str):
+    """Return an attribute value for copying, keeping opaque and enumerated scalar types."""
     val = attr_value_for_copy(src_attrs[key])
     if isinstance(val, np.generic):
         # a scalar as it is read does not carry special type information
@@ -793,7 +793,12 @@ def copy_attr(src_attrs, trg_attrs, key: str):
             dt = None
         if dt is not None and (h5py.check_opaque_dtype(dt) or h5py.check_enum_dtype(dt)):
             val = np.asarray(val).astype(dt)
-    trg_attrs[key] = val
+    return val
+
+
+def copy_attr(src_attrs, trg_attrs, key: str):
+    """Copy an attribute value, keeping opaque and enumerated scalar types."""
+    trg_attrs[key] = typed_attr_value(src_attrs, key)
 
 
 def h5_copy_from_to(
